@@ -147,7 +147,7 @@ Lemma json_number_unsigned ip fd rest neg0 :
   (ip = [48] \/ exists d ds, ip = d :: ds /\ d <> 48) -> Forall is_digit_byte ip -> Forall is_digit_byte fd -> stop_num rest ->
   forall pre, (pre = [] /\ neg0 = false) \/ (pre = [45] /\ neg0 = true) ->
   json_number (pre ++ ip ++ (match fd with [] => [] | _ => 46 :: fd end) ++ rest) =
-    (let '(m, e) := dec_norm (hval fd (hval ip 0)) (- Z.of_nat (length fd)) in Some (JNum neg0 m e, rest)).
+    (let '(m, e) := dec_norm (hval fd (hval ip 0)) (- Z.of_nat (length fd)) in Some (JvNum neg0 m e, rest)).
 Proof.
   intros Hip Hdi Hdf Hstop pre Hpre.
   assert (exists c0 r0, ip = c0 :: r0 /\ is_digit_byte c0) as (c0 & r0 & Eip & Hc0).
